@@ -587,6 +587,9 @@ func buildCases(u *flagUniverse, quick bool) (C []flagCase) {
 		}
 	}
 
+	// ---- option-value spelling (optval.go): `--flag=value` == `--flag value`, and a literal value means its bytes
+	addOptionValueCases(u, quick, add)
+
 	// ---- .mlrrc
 	rc := func(class, id, text string, cmd []string, rhs []string, why string) {
 		t := text
@@ -926,6 +929,12 @@ func flagsWorker(w *vf.Worker) {
 							rcNote, cmdline(l), what, cmdline(r), in.name, brief(in.text), lr.Exit, brief(lr.Stdout), brief(lr.Stderr), rr.Exit, brief(rr.Stdout), brief(rr.Stderr), c.why),
 						map[string]any{"lhs": l, "rhs": r, "mlrrc": c.mlrrc, "stdin": in.text})
 				}
+			}
+			if matters && c.class == "glued" {
+				for _, sym := range optSymbolsIn(c.rhs[len(c.rhs)-1]) {
+					w.Count("glued-nontrivial-value-symbol:"+sym, 1)
+				}
+				w.Count("glued-nontrivial-flag:"+c.rhs[0], 1)
 			}
 			if matters || strings.HasPrefix(c.class, "inert") {
 				w.Nontrivial(1)
